@@ -74,10 +74,10 @@ theorem mem_gaussLayer (n k i j : Nat) :
 theorem mem_givensLeft (m n l k : Nat) (hm : m ≤ n) :
     (l, k) ∈ givensLeft m n ↔ k < n ∧ l + (n - m) < k := by
   unfold givensLeft
-  simp only [List.mem_flatMap, List.mem_reverse, List.mem_map, List.mem_range, Prod.mk.injEq]
+  simp only [List.mem_flatMap, List.mem_map, List.mem_range, Prod.mk.injEq]
   constructor
-  · rintro ⟨k', ⟨t, ht, rfl⟩, l', hl', rfl, rfl⟩; omega
-  · intro h; exact ⟨k, ⟨k - (n - m + 1), by omega, by omega⟩, l, by omega, rfl, rfl⟩
+  · rintro ⟨t, ht, l', hl', rfl, rfl⟩; omega
+  · intro h; exact ⟨n - 1 - k, by omega, l, by omega, rfl, by omega⟩
 
 theorem mem_gaussLeft (n l k : Nat) : (l, k) ∈ gaussLeft n ↔ l + k + 1 < n := by
   unfold gaussLeft
